@@ -343,6 +343,10 @@ Shapes(doc) == IF ~R_NoFragmentCycles(doc) THEN <<>>
                ELSE LET os == Ops(doc) IN
                     [i \in 1..Len(os) |-> [name |-> os[i].name, Obj |-> Shape(doc, os[i].sel, RootType(os[i]), "Obj", 8), Obj2 |-> Shape(doc, os[i].sel, RootType(os[i]), "Obj2", 8)]]
 
+\* ---- 5.1.1 Executable Definitions: a document submitted for execution only holds operations and fragments -------------------
+\* (a type-system definition is a def record with k = "typedef": name, no selections; only reachable with allow_type_system)
+R_ExecutableDefinitions(doc) == \A d \in Rng(doc.defs) : d.k \in {"op", "frag"}
+
 \* ---- input object literals: 5.6.3 Input Object Field Uniqueness -------------------------------------------------------------------
 RECURSIVE ObjsIn(_)
 ObjsIn(v) == CASE v.k = "obj" -> <<v>> \o FlattenSeq([i \in 1..Len(v.fs) |-> ObjsIn(v.fs[i].val)])
@@ -370,7 +374,8 @@ Verdict(doc) == [FieldsOnCorrectTypeChecker |-> R_FieldsOnCorrectType(doc), Scal
                  ProvidedRequiredArgumentsChecker |-> R_ProvidedRequiredArguments(doc),
                  ValuesOfCorrectTypeChecker |-> R_ValuesOfCorrectType(doc), VariablesInAllowedPositionChecker |-> R_VariablesInAllowedPosition(doc),
                  KnownDirectivesChecker |-> R_KnownDirectives(doc), UniqueDirectivesPerLocationChecker |-> R_UniqueDirectivesPerLocation(doc),
-                 UniqueInputFieldNamesChecker |-> R_UniqueInputFieldNames(doc), SingleFieldSubscriptionsChecker |-> R_SingleFieldSubscriptions(doc)]
+                 UniqueInputFieldNamesChecker |-> R_UniqueInputFieldNames(doc), SingleFieldSubscriptionsChecker |-> R_SingleFieldSubscriptions(doc),
+                 ExecutableDefinitionsChecker |-> R_ExecutableDefinitions(doc)]
 VARIABLE i
 Init == i \in 1..Len(Cases)
 Next == FALSE /\ UNCHANGED i
